@@ -90,7 +90,7 @@ def o04_1(tier):
     return out
 
 
-@obligation("O04.7", ["C04", "C10"], [GM + "solve_system", GM + "add_lagrange_multiplier", "forsys.forsys:ForSys.solve_pressure",
+@obligation("O04.7", ["C04", "C10", "C07"], [GM + "solve_system", GM + "add_lagrange_multiplier", "forsys.forsys:ForSys.solve_pressure",
                                      "forsys.forsys:ForSys.build_pressure_matrix", "forsys.frames:Frame.assign_pressures"],
             "solve_pressure: normal equations bordered by the zero-sum constraint reach the solver; the multiplier is dropped; zeros are re-inserted for "
             "cells without internal interface; every cell gets its own entry; ForSys.pressures[t] holds frame t's list and other frames' entries are untouched",
@@ -137,6 +137,9 @@ def o04_7(tier):
                 ctx.ensure(ctx.eq(ctx.get(m.c[cid], "pressure"), sol[col]), f"cell {cid} carries its own pressure")
         return h
     out = [(f"{s},k=1", mk(s, 1, False)) for s in ("tri_star", "border_fan", "tri_star_ear", "tri_star_two_ears")]
+    # relabelled storage (non-contiguous cell ids, other construction order): the re-inserted zero belongs to the cell at that
+    # COLUMN POSITION, whatever its id (C07)
+    out += [(f"{s},k=1", mk(s, 1, False)) for s in ("tri_star_ear~v1", "tri_star_two_ears~v2", "tri_star_ear~v3")]
     out.append(("tri_star,k=1,singular", mk("tri_star", 1, True)))
     if tier != "quick":
         out.append(("double_y,k=1", mk("double_y", 1, False)))
